@@ -2,6 +2,7 @@ import GridVerif.Model.Proto
 import GridVerif.Model.Elem
 import GridVerif.Model.LocalGrid
 import GridVerif.Model.LocalGridGen
+import GridVerif.Gen.LocalGridCtor
 
 /-
   Driver of C10.  The operations are executed by the **generated** definitions
@@ -20,9 +21,19 @@ import GridVerif.Model.LocalGridGen
     out := L <indices: vec> <points: mat> <weights: vec> | G <cls> <points: mat> <weights: vec> <dom>
          | D | E <error>
   or the error tag of the constructor.
+
+  The generated constructors (`Gen/LocalGridCtor.lean`) — the arguments travel as `ndim` and
+  `len()` (that is all the constructors look at):
+
+    C10.ginit  <points.ndim> <len> <weights.ndim> <len>
+    C10.lginit <points.ndim> <len> <weights.ndim> <len> <indices: N | ndim len>
+
+  Answer: `ok p <ndim> <len> w <ndim> <len> t <0: no tree | 1> [i N | i <ndim> <len>]` (what the
+  object holds) or the error tag.  `C10.treeargs`: the regenerated keyword arguments of the
+  neighbour search, `ok <leafsize> <boxsize is None> <p num> <p den> <eps num> <eps den>`.
 -/
 namespace GridVerif.Driver.C10
-open GridVerif.Proto GridVerif.LocalGrid GridVerif.LocalGridGen
+open GridVerif.Proto GridVerif.LocalGrid GridVerif.LocalGridGen GridVerif.LocalGridCtor
 
 abbrev P (α : Type) := List String → Option (α × List String)
 
@@ -98,7 +109,40 @@ def sOut : Out Float → String
   | .done => "D"
   | .error e => s!"E {sErr e}"
 
+def sGridObj (o : GridObj Float) : String :=
+  s!"p {o.upoints.ndim} {o.upoints.rows.length} w {o.uweights.ndim} {o.uweights.rows.length} t {if o.ukdtree.isNone then 0 else 1}"
+
+def handleCtor : List String → Option String
+  | ["C10.treeargs"] =>
+    let a := GridVerif.Gen.LocalGrid.Grid_get_localgrid_tree_args
+    pure s!"ok {a.leafsize} {if a.boxsizeNone then 1 else 0} {a.pNum} {a.pDen} {a.epsNum} {a.epsDen}"
+  | ["C10.ginit", pnd, plen, wnd, wlen] => do
+    let pnd ← pNat pnd; let plen ← pNat plen; let wnd ← pNat wnd; let wlen ← pNat wlen
+    match GridVerif.Gen.LocalGridCtor.Grid_init (K := Float) ⟨pnd, List.replicate plen []⟩ ⟨wnd, List.replicate wlen 0⟩ with
+    | .error e => pure (sErr e)
+    | .ok o => pure ("ok " ++ sGridObj o)
+  | "C10.lginit" :: pnd :: plen :: wnd :: wlen :: rest => do
+    let pnd ← pNat pnd; let plen ← pNat plen; let wnd ← pNat wnd; let wlen ← pNat wlen
+    let idx : Option (NdArg Nat) ← (match rest with
+      | ["N"] => some none
+      | [ind, ilen] => do
+        let ind ← pNat ind; let ilen ← pNat ilen
+        pure (some ⟨ind, List.range ilen⟩)
+      | _ => none)
+    match GridVerif.Gen.LocalGridCtor.LocalGrid_init (K := Float) ⟨pnd, List.replicate plen []⟩ ⟨wnd, List.replicate wlen 0⟩
+        (.scalar 0) idx with
+    | .error e => pure (sErr e)
+    | .ok o =>
+      let i := match o.uindices with
+        | none => "i N"
+        | some a => s!"i {a.ndim} {a.rows.length}"
+      pure ("ok " ++ sGridObj o.base ++ " " ++ i)
+  | _ => none
+
 def handle : List String → Option String
+  | "C10.treeargs" :: ts => handleCtor ("C10.treeargs" :: ts)
+  | "C10.ginit" :: ts => handleCtor ("C10.ginit" :: ts)
+  | "C10.lginit" :: ts => handleCtor ("C10.lginit" :: ts)
   | "C10.hist" :: cls :: ts => do
     let cls ← pCls cls
     let (oned, ts) ← pBool ts
